@@ -27,12 +27,15 @@ def space(name, body):
     return X.elf_space(body)
 
 
+weight = X.elf_weight
+
+
 def commands(name):
     return ['abidw', 'abidiff-dmg-intact', 'abisym']
 
 
 def applies(cmd, fi, f):
-    return cmd == 'abidw' or (cmd == 'abidiff-dmg-intact' and fi % 4 == 0) or (cmd == 'abisym' and fi % 4 == 2)
+    return cmd == 'abidw' or (cmd == 'abidiff-dmg-intact' and fi % 6 == 0) or (cmd == 'abisym' and fi % 6 == 3)
 
 
 def command(ctx, it, cmd, dmg):
